@@ -32,6 +32,8 @@ var (
 	repo  = envOr("VERIF_REPO", "/repo")
 	cache = filepath.Join(root, ".cache")
 	goBin = envOr("GO", "go1.26.8")
+	// the dependency copies are referenced by absolute path from go.mod's replace lines
+	depsDir = envOr("VERIF_DEPS", "/verif/.cache/deps")
 )
 
 func envOr(k, d string) string {
@@ -74,7 +76,7 @@ var depUnits = []depUnit{
 
 func goEnv() []string {
 	env := os.Environ()
-	env = append(env, "PATH=/opt/veriftools/go1.26.8/bin:"+os.Getenv("PATH"), "GOFLAGS=-mod=mod", "GOPROXY=off", "GOSUMDB=off", "GOTOOLCHAIN=local", "GOCACHE="+filepath.Join(cache, "gocache"))
+	env = append(env, "PATH=/opt/veriftools/go1.26.8/bin:"+os.Getenv("PATH"), "GOFLAGS=-mod=mod", "GOPROXY=off", "GOSUMDB=off", "GOTOOLCHAIN=local", "GOCACHE="+envOr("VERIF_GOCACHE", "/verif/.cache/gocache"))
 	return env
 }
 
@@ -223,7 +225,7 @@ func ensureBuild(variant string) (string, error) {
 	}
 	// 3. instrument the dependency copies
 	for _, u := range depUnits {
-		ddir := filepath.Join(cache, "deps", u.name)
+		ddir := filepath.Join(depsDir, u.name)
 		a := []string{"-dir", ddir, "-out", filepath.Join(dir, "i-"+u.name), "-site-base", strconv.Itoa(u.base)}
 		a = append(a, u.pkgs...)
 		if out, err := run(root, env, vinstr, a...); err != nil {
@@ -1032,6 +1034,94 @@ func writeEvidence(prop, tier string, baseSeed uint64, scs []scenRow, results []
 	writeJSON(filepath.Join(root, "evidence", prop+".json"), ev)
 }
 
+func detTest(prop string, n int) int {
+	bin, err := ensureBuild("stock")
+	if err != nil {
+		die(2, "%v", err)
+	}
+	rows, err := listScenarios(bin)
+	if err != nil {
+		die(2, "%v", err)
+	}
+	bad := 0
+	for _, sc := range rows {
+		if sc.Prop != prop {
+			continue
+		}
+		for _, variant := range sc.Variants {
+			b, err := ensureBuild(variant)
+			if err != nil {
+				die(2, "%v", err)
+			}
+			var seeds []uint64
+			for i := 0; i < n; i++ {
+				seeds = append(seeds, uint64(1000+i))
+			}
+			type key struct{ seed uint64 }
+			ref := map[uint64]string{}
+			var mu sync.Mutex
+			var wg sync.WaitGroup
+			sem := make(chan struct{}, 16)
+			runSet := func(label string, ss []uint64) {
+				defer wg.Done()
+				defer func() { <-sem }()
+				rest := ss
+				for len(rest) > 0 {
+					wo := runWorker(b, map[string]string{"VERIF_PROP": prop, "VERIF_SCEN": sc.Name, "VERIF_VARIANT": variant, "VERIF_SEEDS": seedsCSV(rest)}, 20*time.Minute)
+					mu.Lock()
+					for _, r := range wo.results {
+						v := ""
+						if r.Viol != nil {
+							v = r.Viol.Sig()
+						}
+						sig := fmt.Sprintf("steps=%d sched=%s work=%s viol=%s harness=%v", r.Steps, r.SchedHash, r.WorkHash, v, r.Harness != "")
+						if old, ok := ref[r.Seed]; !ok {
+							ref[r.Seed] = sig
+						} else if old != sig {
+							bad++
+							fmt.Printf("DIVERGENCE %s/%s variant=%s seed=%d (%s):\n   %s\n   %s\n", prop, sc.Name, variant, r.Seed, label, old, sig)
+						}
+					}
+					mu.Unlock()
+					done := len(wo.results)
+					if wo.exit == "" {
+						done++
+					}
+					if done >= len(rest) || done == 0 {
+						break
+					}
+					rest = rest[done:]
+				}
+			}
+			// batch forward, batch reversed, singles
+			rev := append([]uint64(nil), seeds...)
+			for i, j := 0, len(rev)-1; i < j; i, j = i+1, j-1 {
+				rev[i], rev[j] = rev[j], rev[i]
+			}
+			for _, set := range []struct {
+				l string
+				s []uint64
+			}{{"batch", seeds}, {"reversed-batch", rev}} {
+				wg.Add(1)
+				sem <- struct{}{}
+				go runSet(set.l, set.s)
+			}
+			wg.Wait()
+			for _, sd := range seeds {
+				wg.Add(1)
+				sem <- struct{}{}
+				go runSet("single", []uint64{sd})
+			}
+			wg.Wait()
+			fmt.Printf("det %s/%s variant=%s: %d seeds x 3 executions, divergences so far %d\n", prop, sc.Name, variant, len(seeds), bad)
+		}
+	}
+	if bad > 0 {
+		return 1
+	}
+	return 0
+}
+
 func main() {
 	if len(os.Args) < 2 {
 		die(2, "usage: vcheck build|list|check <ID> [--tier quick|thorough] [--replay f] [--runs n] [--scen name]")
@@ -1069,6 +1159,18 @@ func main() {
 		for _, r := range rows {
 			fmt.Printf("%s %-24s variants=%v quick=%d thorough=%d\n", r.Prop, r.Name, r.Variants, r.Quick, r.Thorough)
 		}
+	case "det":
+		// determinism self-test: every seed is executed in several fresh processes, alone and inside
+		// batches, at different GOMAXPROCS; schedule hash, step count and verdict must coincide.
+		if len(os.Args) < 3 {
+			die(2, "det needs a property id")
+		}
+		prop := os.Args[2]
+		n := 40
+		if len(os.Args) > 3 {
+			n, _ = strconv.Atoi(os.Args[3])
+		}
+		os.Exit(detTest(prop, n))
 	case "check":
 		if len(os.Args) < 3 {
 			die(2, "check needs a property id")
